@@ -87,6 +87,12 @@ From Peppi Require Import Gen.PortOccupancySrc Proofs.PortOccupancyLayout.
 Theorem C04_port_occupancy_from_source : forall s, port_occupancy s = port_occupancy_tbl s.
 Proof. exact port_occupancy_from_source. Qed.
 
+From Peppi Require Proofs.ReaderTies.
+(* the reader model these theorems speak about is the one regenerated from the source on this run: one-shot read, every incremental
+   entry point, the event dispatch with the splitter, the Game Start wiring, the metadata reader (Proofs/ReaderTies.v reader_tied) *)
+Theorem C04_reader_is_the_source : ReaderTies.reader_tied.
+Proof. exact ReaderTies.reader_tied_holds. Qed.
+
 Print Assumptions C04_parsed_frames.
 Print Assumptions C04_ids.
 Print Assumptions C04_slots.
@@ -104,3 +110,4 @@ Print Assumptions C04_frame_start_arm_from_source.
 Print Assumptions C04_frame_end_arm_from_source.
 Print Assumptions C04_game_end_arm_from_source.
 Print Assumptions C04_port_occupancy_from_source.
+Print Assumptions C04_reader_is_the_source.
